@@ -15,7 +15,7 @@ import (
 	"pgregory.net/rapid"
 )
 
-var rtCfg = vcommon.Cfg{MaxSteps: 300000, MaxPhysical: 2000, NoStdlib: true, MaxMacroDepth: 200}
+var rtCfg = vcommon.Cfg{MaxSteps: 300000, MaxPhysical: 2000, NoStdlib: true, MaxMacroDepth: 200, ProbesInLang: true}
 
 type mg struct {
 	t      *rapid.T
@@ -53,7 +53,7 @@ func (g *mg) template(params []string, rest string, depth int) gen.Val {
 	if depth <= 0 {
 		return p()
 	}
-	switch g.n(0, 11, "tmpl") {
+	switch g.n(0, 14, "tmpl") {
 	case 0:
 		return gen.L(gen.S("+"), p(), p(), gen.I(1))
 	case 1:
@@ -100,6 +100,14 @@ func (g *mg) template(params []string, rest string, depth int) gen.Val {
 		return gen.L(gen.S("car"), gen.L(gen.S("list"), g.template(params, rest, depth-1), gen.QL(gen.S("a"), p())))
 	case 10:
 		return gen.L(gen.S("funcall"), gen.L(gen.S("lambda"), gen.L(gen.S("z")), gen.L(gen.S("+"), gen.S("z"), p())), g.template(params, rest, depth-1))
+	case 12:
+		// the argument FORM may be list data: it reaches the expansion as written
+		g.stat("template-length-of-arg")
+		return gen.L(gen.S("length"), p())
+	case 13:
+		// a free name of the CALLER: the expansion is evaluated where the call is
+		g.stat("template-caller-global")
+		return gen.L(gen.S("*"), gen.S("scale"), gen.L(gen.S("+"), gen.I(0), p()))
 	default:
 		return gen.L(gen.S("*"), gen.I(2), g.template(params, rest, depth-1))
 	}
@@ -168,7 +176,13 @@ func (g *mg) defmacro(idx int) gen.Val {
 }
 
 func (g *mg) argForm() gen.Val {
-	switch g.n(0, 5, "argform") {
+	switch g.n(0, 7, "argform") {
+	case 6:
+		g.stat("quoted-list-argument")
+		return gen.QL(gen.I(1), gen.I(2), gen.I(3))
+	case 7:
+		g.stat("quoted-list-argument")
+		return gen.QL(gen.S("a"), gen.QL(gen.I(4)))
 	case 0:
 		return gen.I(int64(g.n(0, 9, "v")))
 	case 1:
@@ -211,6 +225,9 @@ func (g *mg) call(m macroSig) gen.Val {
 
 // MacroCase: definitions + one call form.
 type MacroCase struct {
+	// CrossPkg: the macros are defined (and exported) in package ml, which has
+	// its own `scale`; the call is made from user, which uses ml.
+	CrossPkg bool           `json:"cross_pkg"`
 	Defs     []gen.Val      `json:"defs"`
 	Call     gen.Val        `json:"call"`
 	Macrolet bool           `json:"macrolet"`
@@ -226,7 +243,11 @@ func genMacroCase() *rapid.Generator[MacroCase] {
 			defs = append(defs, g.defmacro(i))
 		}
 		call := g.call(g.macros[len(g.macros)-1])
-		return MacroCase{Defs: defs, Call: call, Macrolet: rapid.IntRange(0, 3).Draw(t, "macrolet") == 0, Stats: g.stats}
+		mc := MacroCase{Defs: defs, Call: call, Macrolet: rapid.IntRange(0, 3).Draw(t, "macrolet") == 0, Stats: g.stats}
+		if !mc.Macrolet && rapid.IntRange(0, 3).Draw(t, "crosspkg") == 0 {
+			mc.CrossPkg = true
+		}
+		return mc
 	})
 }
 
@@ -288,9 +309,21 @@ func checkMacro(mc MacroCase, c *vcommon.Ctx) *vcommon.Failure {
 		direct = []gen.Val{macroletForm(mc.Defs, mc.Call)}
 		viaExpand = []gen.Val{macroletForm(mc.Defs, expandCall)}
 		c.Class("macrolet")
+	} else if mc.CrossPkg {
+		var pre []gen.Val
+		pre = append(pre, gen.Call("set", gen.QS("scale"), gen.I(2)), gen.Call("in-package", gen.QS("ml")), gen.Call("set", gen.QS("scale"), gen.I(1000)))
+		for _, d := range mc.Defs {
+			pre = append(pre, gen.Call("export", gen.L(gen.S("quote"), d.L[1])))
+		}
+		pre = append(pre, mc.Defs...)
+		pre = append(pre, gen.Call("in-package", gen.QS("user")), gen.Call("use-package", gen.QS("ml")))
+		direct = append(append([]gen.Val{}, pre...), mc.Call)
+		viaExpand = append(append([]gen.Val{}, pre...), expandCall)
+		c.Class("defmacro-in-another-package")
 	} else {
-		direct = append(append([]gen.Val{}, mc.Defs...), mc.Call)
-		viaExpand = append(append([]gen.Val{}, mc.Defs...), expandCall)
+		pre := []gen.Val{gen.Call("set", gen.QS("scale"), gen.I(2))}
+		direct = append(append(pre, mc.Defs...), mc.Call)
+		viaExpand = append(append([]gen.Val{gen.Call("set", gen.QS("scale"), gen.I(2))}, mc.Defs...), expandCall)
 		c.Class("defmacro")
 	}
 	srcA, srcB := gen.RenderProgram(direct), gen.RenderProgram(viaExpand)
